@@ -284,6 +284,21 @@ PROPS = {
                      "for malformed authorities (stray brackets, tabs, backslashes) only totality and field consistency are judged"],
         floors=(1_500_000, 300_000, 20_000_000, 400_000),
     ),
+    "C11": simple(
+        rule="total: seed rules = 24 synthetic rules of every syntax family + a stride sample of the shipped EasyList / uBO / hosts lists (quick 8k, "
+             "thorough 150k lines); for each seed: one multi-byte / case-mapping character inserted at EVERY char boundary, truncation at EVERY "
+             "boundary, deletion and duplication of every special character, random special insertions; each mutant goes through parse_filter "
+             "(2 formats x 3 rule-type options x debug on/off, random permission mask), parse_hosts_style, read_list_metadata, "
+             "FilterSet::add_filter_list / add_filter under catch_unwind; plus lossy-UTF-8 random byte strings; metadata blocks with each "
+             "multi-byte character placed at every offset 1000..1030 (straddling byte 1024) and Expires edge cases. indep: lists with "
+             "injected junk and mutated rules, Engine(L) vs Engine(L minus lines that parse_filter rejects): serialized bytes and battery. "
+             "hosts: hosts-file entries (ip + host, bare host, case, www., IDN, comments) vs `||normalised-host^`: bytes and battery. types: "
+             "NetworkOnly / CosmeticOnly engines vs engines built from only the network / cosmetic lines: bytes. non-trivial = input reaches a "
+             "specific parser; list has >= 1 rejected and >= 1 accepted line; hosts list blocks; list has both kinds. distinct = hash of seed / list.",
+        assumptions=["serialized bytes are a sound equality proxy because serialization is deterministic (C09)"],
+        floors=(1_500_000, 40_000, 30_000_000, 400_000),
+        extra_thorough=[stage(config="native-css", budget_s=240, args=["--set", "only=total"], name="css", count_coverage=False)],
+    ),
 }
 
 # ---------------------------------------------------------------------------------------------
@@ -433,6 +448,15 @@ MANIFEST_TEXT = {
         "note": "PSL ground truth is limited to the table's hosts; the url crate is a second opinion on the plain sub-domain only.",
         "technique": "runtime monitoring: totality + reference extraction/classification + differential between two constructors",
         "design_ref": "DESIGN.md §4.12",
+    },
+    "C11": {
+        "text": "Runtime monitor on the real parsers: grammar-aware mutation of shipped and synthetic rules (a multi-byte character at every slicing "
+                "offset, truncation at every offset, special-character deletion/duplication) through every parsing entry point under a panic "
+                "catcher, plus differential engines for line independence, hosts-format equivalence and rule-type options (compared by serialized "
+                "bytes and a query battery). Thorough repeats totality with the css-validation feature.",
+        "note": "Totality is judged with debug assertions and overflow checks on.",
+        "technique": "runtime monitoring: mutation-driven totality under catch_unwind + differential twins by bytes and battery",
+        "design_ref": "DESIGN.md §4.11",
     },
 }
 
